@@ -16,6 +16,7 @@ is started, create both temp files first, optimizer first, …). Here:
 * `eff_take`, `c16_crashMatch_rec`: the matcher the driver uses (`crashMatch` of the Model: observed effective
   file-system changes against the admitted orders, no-op calls dropped) accepts only sequences that leave a
   recoverable disk;
+* `exec_effective`, `removes_eqv`, `c16_fullMatch_rec`: the same for a COMPLETED update (`fullMatch`);
 * `runsAny_rec`, `c16_rec_killed_any_order`, `c16_resume_any_order`: sessions and crash schedules in which every
   update uses any admitted order.
 -/
@@ -654,6 +655,67 @@ theorem c16_crashMatch_rec {P : Params} (vals : List (Option Int)) (tr : Train) 
       | _ => exact hto
     obtain ⟨t, rfl⟩ := tearW_some htw
     exact ⟨k', RecAt_write_tmp hk' t _⟩
+
+/-! ## a completed update seen in any admitted order (audit F: `fullMatch` had no theorem) -/
+
+theorem Disk.Eqv.trans' {a b c : Disk} (h1 : a.Eqv b) (h2 : b.Eqv c) : a.Eqv c :=
+  ⟨fun q => (h1.1 q).trans (h2.1 q), h1.2.trans h2.2⟩
+
+/-- Dropping the no-op calls does not change what a sequence of calls leaves. -/
+theorem exec_effective (b : Bool) (ops : List FsOp) : ∀ (d : Disk), (b = true → d.csv.isSome = true) →
+    exec d (ops.filter (fun op => !(op.noop b))) = exec d ops := by
+  induction ops with
+  | nil => intro d _; rfl
+  | cons x xs ih =>
+    intro d hd
+    by_cases hx : x.noop b = true
+    · rw [List.filter_cons_of_neg (by simp [hx]), exec_cons, exec1_noop hx hd]
+      exact ih d hd
+    · rw [List.filter_cons_of_pos (by simp [hx]), exec_cons, exec_cons]
+      exact ih _ (fun hb => exec1_csv_isSome d x (hd hb))
+
+/-- Removing the same set of paths in another order (or with repetitions) leaves the same disk. -/
+theorem removes_eqv {d d' : Disk} (h : d.Eqv d') {cl cl' : List Path} (hcl : ∀ p, p ∈ cl' ↔ p ∈ cl) :
+    (exec d (cl'.map FsOp.remove)).Eqv (exec d' (cl.map FsOp.remove)) := by
+  refine ⟨fun q => ?_, by rw [exec_removes_csv, exec_removes_csv]; exact h.2⟩
+  rw [exec_removes_get, exec_removes_get, h.1 q]
+  by_cases hq : q ∈ cl
+  · simp [hq, (hcl q).2 hq]
+  · have : q ∉ cl' := fun h' => hq ((hcl q).1 h')
+    simp [hq, this]
+
+/-- **The matcher for COMPLETED updates.** The effective file-system changes an implementation was seen to make
+in a completed checkpoint-first update of a recoverable disk are accepted by `fullMatch` (the `trace_ok` of a
+completed update) only if they leave `k+1` epochs recorded and recoverable, and a disk no controller can tell from
+the one the driver goes on with (`exec d (opsOf main cl)`: the pinned order, the clean-up in the planned order). -/
+theorem c16_fullMatch_rec {P : Params} (vals : List (Option Int)) (tr : Train) (d : Disk) (k : Nat)
+    (hrec : RecAt P vals tr d k) (hlt : k < vals.length) (hs : SafeAt P vals k) (hsep : Sep P vals k)
+    (rm : List Path) (obs : List FsOp)
+    (hm : fullMatch (updateOrders Quirks.fixed P vals k d (U tr (k + 1)) rm) d obs = true) :
+    RecAt P vals tr (exec d obs) (k + 1) ∧
+      (exec d obs).Eqv
+        (exec d (opsOf (mainOps Quirks.fixed P vals k d (U tr (k + 1))) (cleanSet P vals k d))) := by
+  unfold fullMatch at hm
+  obtain ⟨L0, hL0, hbeq⟩ := List.any_eq_true.1 hm
+  have hLeq : L0 = obs := by simpa using hbeq
+  obtain ⟨L', hL', rfl⟩ := List.mem_map.1 hL0
+  obtain ⟨sv, hsh, rfl⟩ := mem_updateOrders_safe hs hL'
+  subst hLeq
+  have hex := exec_effective d.csv.isSome (opsOf (sv ++ histOps Quirks.fixed d (k + 1))
+    (reorder (cleanSet P vals k d) rm)) d (fun h => h)
+  unfold effective
+  rw [hex]
+  obtain ⟨h1, h2⟩ := c16_rec_full_any_order vals tr d k hrec hlt hs hsep sv hsh
+    (reorder (cleanSet P vals k d) rm) (fun p hp => mem_reorder hp)
+  refine ⟨h1, h2.trans' ?_⟩
+  have hmain : mainOps Quirks.fixed P vals k d (U tr (k + 1)) =
+      saveOps P d (k + 1) (U tr (k + 1)) ++ histOps Quirks.fixed d (k + 1) := by
+    have h2' : infoFirst Quirks.fixed P vals k d = false := by
+      rw [infoFirst_fixed P vals k d Disk.blank]; exact hs.2
+    simp [mainOps, h2']
+  rw [hmain]
+  simp only [opsOf, exec_append]
+  exact removes_eqv (Disk.Eqv.refl _) (fun p => mem_reorder_iff)
 
 /-! ## sessions in which every update may use any admitted order -/
 
